@@ -102,6 +102,35 @@ def peak_case(case):
     return [] if got == list(case["peaks"]) else [("peaks", got, list(case["peaks"]))]
 
 
+def resample_case(case):
+    import pandas as pd
+    from speckit import dsp
+    r = lambda p: p[0] / p[1]
+    frames = [pd.DataFrame({"time": [r(t) for t in f["t"]], "x": [float(v) for v in f["v"]]}) for f in case["frames"]]
+    frames0 = [f.copy(deep=True) for f in frames]
+    out = dsp.resample_to_common_grid(frames, r(case["fs"]), suffixes=case["suffixes"])
+    probs = []
+    if any(not a.equals(b) for a, b in zip(frames, frames0)):
+        probs.append(("input_frames_modified", "", ""))
+    grid = np.array([r(g) for g in case["grid"]])
+    if case["empty"]:
+        return probs if (len(out) == 0 and list(out.columns) == ["common_time"]) else probs + [("empty_overlap", list(out.columns), len(out))]
+    if len(out) != len(grid) or not np.allclose(out["common_time"].to_numpy(dtype=float), grid, rtol=0, atol=1e-12):
+        return probs + [("common_time_grid", out["common_time"].tolist(), grid.tolist())]
+    single = len(frames) == 1
+    for i, col in enumerate(case["cols"]):
+        name = "x" if (single or not case["suffixes"]) else f"x_{i + 1}"
+        if (not single) and (not case["suffixes"]) and i > 0:
+            continue                     # same name: the first frame's column is kept
+        if name not in out:
+            probs.append(("column_name", list(out.columns), name))
+            continue
+        exp = np.array([r(v) for v in col])
+        if not np.allclose(out[name].to_numpy(dtype=float), exp, rtol=0, atol=1e-12):
+            probs.append(("interpolated_values", out[name].tolist(), exp.tolist()))
+    return probs
+
+
 def run(tier):
     V = common.Verdict(PID, tier, "model_checking")
     res = tlc.run_model("Config", f"{PID}_config", constants=dict(EmitCases=True), invariants=["AlphaOnlyForKaiser", "Emit"])
@@ -130,6 +159,15 @@ def run(tier):
         for (what, got, exp) in probs:
             V.violation(f"{PID}|peak_finder|{what}|edge={c['edge']}", {"kind": "peak", "case": c, "message": f"peak_finder({c['m']}, edge={c['edge']}): peaks at {got}, model {exp}"})
     V.set("peak_cases_skipped_fit_impossible", skipped)
+    rr = tlc.run_model("Resample", f"{PID}_resample", constants=dict(EmitCases=True), invariants=["GridInsideOverlap", "GridIsMaximal", "Emit"])
+    if rr.violated:
+        raise tlc.TLCError(f"Resample.tla violates {rr.violated}")
+    V.model(rr, "Resample.tla: common-grid logic of resample_to_common_grid")
+    rcs = rr.json_prints()
+    for c, probs in zip(rcs, common.pmap(resample_case, rcs, chunksize=16)):
+        V.case(c, not c["empty"])
+        for (what, got, exp) in probs:
+            V.violation(f"{PID}|resample|{what}|frames={len(c['frames'])}", {"kind": "resample", "case": c, "message": f"resample_to_common_grid: {what}: {got} vs {exp} for {c['frames']} fs={c['fs']}"})
     V.sample({"case": cases[0]})
     rc = V.finish(rule="every row of Config.tla's decision table + fixed validation tables")
     # not a listed property: keep its evidence out of /verif/evidence
